@@ -6,7 +6,7 @@ is exact, copies are verified, only missing chunks are requested (never one whos
 the target ends identical to B and validated, and the chunks requested over all rounds are exactly those
 neither valid after the scan nor usable from A."""
 import os, json, random, shutil
-from .. import common, ref, corpus, delta
+from .. import common, ref, corpus, delta, server, zckdltier
 from ..common import Check, Broken
 from .c02 import validate_segments
 
@@ -81,10 +81,41 @@ def run(tier):
         for x in t:
             trace.append(x); owner.append(sc.cid)
         ck.case(sc.name)
+    # ---- the shipped downloader against the loopback HTTP server
+    bd = os.path.join(common.BUILD, "plain")
+    nz = 8 if tier == "quick" else 80
+    zscripts = {}
+    for i in range(nz):
+        A, B, kind = make_pair(rnd, big=(i % 3 == 2))
+        hB = ref.parse_header(B)
+        if hB.hash_type != 1:
+            B = ref.rebuild_from_parse(hB, B)            # (keep as is; zckdl handles SHA-1/SHA-256 overall types)
+        tk, T = initial_target(rnd, A, B)
+        root = os.path.join(wd, "srv%d" % i); cwd = os.path.join(wd, "cl%d" % i); os.makedirs(root); os.makedirs(cwd)
+        open(os.path.join(root, "B.zck"), "wb").write(B)
+        if A is not None: open(os.path.join(cwd, "A.zck"), "wb").write(A)
+        if tk != "empty": open(os.path.join(cwd, "B.zck"), "wb").write(T)
+        mr = rnd.choice([0, 1, 2, 7]); piece = rnd.choice([0, 1000, 16384])
+        srv = server.start(root, max_ranges=mr, piece=piece)
+        url = "http://127.0.0.1:%d/B.zck" % srv.server_address[1]
+        st = zckdltier.run_zckdl(bd, cwd, url, src="A.zck" if A is not None else None)
+        after = open(os.path.join(cwd, "B.zck"), "rb").read() if os.path.exists(os.path.join(cwd, "B.zck")) else b""
+        ev = zckdltier.tool_event(B, hB, A, T if tk != "empty" else b"", after, server.requested_ranges(srv.log, "B.zck"), st)
+        srv.shutdown(); srv.server_close()
+        cid = "zckdl%d" % i
+        name = "zckdl: %s pair, target %s, server max ranges %d, piece %d" % (kind, tk, mr, piece)
+        trace.append({"op": "begin", "name": name}); owner.append(cid)
+        if st == "Hang" or (isinstance(st, int) and (st < 0 or st in (134, 139))):
+            trace.append({"op": "Hang" if st == "Hang" else "Crash", "tool": "zckdl", "status": str(st)}); owner.append(cid)
+        else:
+            ev["name"] = name; trace.append(ev); owner.append(cid)
+        zscripts[cid] = ("# zckdl -s A.zck %s   (server: verif/server.py max_ranges=%d)\n" % (url, mr), name, [os.path.join(root, "B.zck"), os.path.join(cwd, "A.zck"), (os.path.join(cwd, "B.zck"), T)])
+        ck.case(name)
+    ck.extra["zckdl_runs"] = nz
     ck.sample({"scenario": scs[0].name, "trace": [t for t, o in zip(trace, owner) if o == scs[0].cid][:8]})
     ck.sample({"scenario": scs[-1].name})
     ck.extra["rounds_total"] = len([t for t in trace if t["op"] == "round"])
-    validate_segments(ck, "C04", trace, owner, wd, scripts_by={s.cid: (s.script(), s.name, delta.replay_files(s)) for s in scs},
+    validate_segments(ck, "C04", trace, owner, wd, scripts_by=dict({s.cid: (s.script(), s.name, delta.replay_files(s)) for s in scs}, **zscripts),
                       module="Trace_Delta", cfg="Trace_Delta.cfg", start_ops=("begin",))
     if not ck.violations:
         good = [t for t, o in zip(trace, owner) if o == scs[0].cid]
